@@ -26,8 +26,9 @@ Definition timing (os : os_model) (T lat : N) (st : state) : Prop :=
   /\ (ctl st = PcInit \/ ctl st = PcSelect -> now st <= T + lat).
 
 Definition C30_statement : Prop :=
-  (* the command is started as the leader of a process group of its own *)
-  in_group start_proc = true /\
+  (* the command is started as the leader of a process group of its own, whatever the sandbox
+     configuration (none, external sandbox tool, builtin sandbox; any namespace policy) *)
+  (forall m, in_group (start_proc m) = true) /\
   forall (T lat : N) (tr : list event) (st : state), run linux T lat init tr = Some st ->
     timing linux T lat st
     (* once the action has been reported finished - with whatever result, and in every later
@@ -49,21 +50,35 @@ Print Assumptions C30_refuted.
    correspondence check runs against the real kernel):
    OS-1 a SIGKILL sent to the process group reaches every live member of the group;
    OS-2 cmd.Wait() returns only when process 0 is gone and no live process has the output pipes open;
-   OS-3 sending a signal closes nobody's descriptors. *)
+   OS-3 sending a signal closes nobody's descriptors;
+   OS-4 sending a signal moves nobody out of the process group. *)
 Definition os_hypotheses (os : os_model) : Prop :=
   (forall l, G (os_kill os true sigkill l))
   /\ (forall l, os_wait_done os l = true -> Quiet l)
-  /\ (forall g sg l, Forall Ph l -> Forall Ph (os_kill os g sg l)).
+  /\ (forall g sg l, Forall Ph l -> Forall Ph (os_kill os g sg l))
+  /\ (forall g sg l, Forall Pin l -> Forall Pin (os_kill os g sg l)).
 
 (* Everything else holds, for every timeout, every lateness and every schedule: *)
 Definition C30_partial_for (os : os_model) : Prop :=
-  in_group start_proc = true /\
+  (* ExecCommand as it is written (Gen.exec_command_prog), run for every configuration m of the
+     executor and the action: the command that is started is a process-group leader *)
+  (forall m, in_group (start_proc m) = true) /\
   forall (T lat : N) (tr : list event) (st : state), run os T lat init tr = Some st ->
     timing os T lat st
     (* timed-out actions: when the timeout is reported, and ever after, every process of the
        group is dead or was sent SIGKILL - whether it ignores SIGTERM, forks, holds the pipes,
        exits at the deadline; a process that left the group (setsid) is outside this clause *)
     /\ (forall t, ctl st = PcRet t ErrDeadline -> forall p, In p (procs st) -> in_group p = true -> stopped p)
+    (* and if no process ever left the group (no setsid/setpgid in the schedule), that is every
+       process the action started, for every sandbox configuration chosen at the start *)
+    /\ (forall t, ctl st = PcRet t ErrDeadline -> escapes tr = false -> forall p, In p (procs st) -> stopped p)
+    (* the report waits for nobody's pipes: from this state the executor reaches its return by
+       clock events alone (no receive from the channel, no step of any process), within the bound *)
+    /\ (exists tr' st' t e, forallb timer_only tr' = true /\ run os T lat st tr' = Some st'
+                            /\ ctl st' = PcRet t e /\ t <= T + 1030 + 3 * lat)
+    (* - even though, as long as a live process (escaped from the group or not) has the output
+       pipes open, cmd.Wait() has not returned and nothing is sent on the channel *)
+    /\ (forall p, In p (procs st) -> alive p = true -> holds_pipe p = true -> os_wait_done os (procs st) = false)
     (* actions that finish in time: if no process of the command ever gave up its copies of the
        output pipes (the defect class), every process it started is dead, in or out of the group *)
     /\ (forall t, ctl st = PcRet t ErrNone -> detaches tr = false -> forall p, In p (procs st) -> alive p = false)
@@ -75,12 +90,15 @@ Definition C30_partial_for (os : os_model) : Prop :=
 
 Theorem C30_partial_any_os : forall os, os_hypotheses os -> C30_partial_for os.
 Proof.
-  intros os (H1 & H2 & H3). split; [exact start_in_group|]. intros T lat tr st Hr.
-  split; [split; [|split]|split; [|split; [|split]]].
+  intros os (H1 & H2 & H3 & H4). split; [exact start_in_group|]. intros T lat tr st Hr.
+  split; [split; [|split]|split; [|split; [|split; [|split; [|split; [|split]]]]]].
   - rewrite <- bound_1030. exact (reported_by_bound os H1 H2 T lat tr st Hr).
   - exact (never_stuck os H1 H2 T lat tr st Hr).
   - exact (reported_failed os H1 H2 T lat tr st Hr).
   - exact (fun t Hc => timeout_group_stopped os H1 H2 T lat tr st t Hr Hc).
+  - exact (fun t Hc He => timeout_all_stopped os H1 H2 H4 T lat tr st t He Hr Hc).
+  - rewrite <- bound_1030. exact (report_needs_no_eof os H1 H2 T lat tr st Hr).
+  - exact (pipe_holder_blocks_wait os H2 (procs st)).
   - exact (fun t Hc Hd => attached_all_dead os H2 H3 T lat tr st t Hd Hr Hc).
   - exact (fun t Hc => normal_return_quiet os H1 H2 T lat tr st t Hr Hc).
   - exact (fun t Hc => start_failure_no_process os H1 H2 T lat tr st t Hr Hc).
@@ -89,7 +107,7 @@ Print Assumptions C30_partial_any_os.
 
 Theorem C30_partial : C30_partial_for linux.
 Proof.
-  exact (C30_partial_any_os linux (conj linux_sigkill_reaches_group (conj linux_wait_done_sound linux_kill_keeps_pipes))).
+  exact (C30_partial_any_os linux (conj linux_sigkill_reaches_group (conj linux_wait_done_sound (conj linux_kill_keeps_pipes linux_kill_keeps_group)))).
 Qed.
 Print Assumptions C30_partial.
 
@@ -99,19 +117,19 @@ Print Assumptions C30_partial.
    left the group before the deadline, holds the pipes (so cmd.Wait() never returns) and survives *)
 Example C30_partial_nonvacuous :
   run linux 300 0 init
-      [CStart true; EFork 0; ESetIgn 1 true; EFork 0; EEscape 2; Tick 300; CDeadline; EExit 0; Tick 30; CExpire; Tick 1000; CExpire]
+      [CStart true no_sandbox; EFork 0; ESetIgn 1 true; EFork 0; EEscape 2; Tick 300; CDeadline; EExit 0; Tick 30; CExpire; Tick 1000; CExpire]
   = Some (mkState 1330 (PcRet 1330 ErrDeadline)
             [mkProc true false false true true false;    (* the command: exited on SIGTERM *)
              mkProc true true true true true true;       (* ignores SIGTERM: sent SIGKILL *)
              mkProc false true false true false false])  (* escaped through setsid: not signalled *)
-  /\ detaches [CStart true; EFork 0; ESetIgn 1 true; EFork 0; EEscape 2; Tick 300; CDeadline] = false
+  /\ detaches [CStart true no_sandbox; EFork 0; ESetIgn 1 true; EFork 0; EEscape 2; Tick 300; CDeadline] = false
   (* with lateness, the bound is reached exactly: 300+50, +30+50, +1000+50 *)
-  /\ (exists st, run linux 300 50 init [CStart true; Tick 350; CDeadline; Tick 80; CExpire; Tick 1050; CExpire] = Some st
+  /\ (exists st, run linux 300 50 init [CStart true no_sandbox; Tick 350; CDeadline; Tick 80; CExpire; Tick 1050; CExpire] = Some st
                  /\ ctl st = PcRet (300 + 1030 + 3 * 50) ErrDeadline)
   (* the quirk: a command that exits on SIGTERM at once is still reported a full second later,
      because the second sendSignal waits on the channel the first one drained *)
-  /\ run linux 300 0 init [CStart true; Tick 300; CDeadline; EExit 0; CRecv; CRecv] = None
-  /\ (exists st, run linux 300 0 init [CStart true; Tick 300; CDeadline; EExit 0; CRecv; Tick 1000; CExpire] = Some st
+  /\ run linux 300 0 init [CStart true no_sandbox; Tick 300; CDeadline; EExit 0; CRecv; CRecv] = None
+  /\ (exists st, run linux 300 0 init [CStart true no_sandbox; Tick 300; CDeadline; EExit 0; CRecv; Tick 1000; CExpire] = Some st
                  /\ ctl st = PcRet 1300 ErrDeadline)
   /\ os_hypotheses linux.
 Proof.
@@ -119,7 +137,37 @@ Proof.
   split; [eexists; split; [vm_compute; reflexivity|reflexivity]|].
   split; [vm_compute; reflexivity|].
   split; [eexists; split; [vm_compute; reflexivity|reflexivity]|].
-  exact (conj linux_sigkill_reaches_group (conj linux_wait_done_sound linux_kill_keeps_pipes)).
+  exact (conj linux_sigkill_reaches_group (conj linux_wait_done_sound (conj linux_kill_keeps_pipes linux_kill_keeps_group))).
+Qed.
+
+(* the sandbox configurations are really distinct runs of ExecCommand: through the external sandbox
+   tool and through the builtin sandbox a second exec.Command replaces the first before the
+   SysProcAttr is assigned; a variant of the program that assigns it before the replacement loses
+   the group exactly for the sandboxed configurations.  And a timed-out sandboxed action none of
+   whose processes leaves the group: all three processes are stopped. *)
+Example C30_partial_nonvacuous_sandbox :
+  exec_command (mkMode NsNever false true) = mkCmd true true false true
+  /\ exec_command (mkMode NsSandbox true true) = mkCmd true true false true
+  /\ (let hoisted := [ENewCmd; ESetAttr true; EIf CSandboxed [EIf CBuiltin [ENewCmd] [ENewCmd]] []; EReturn] in
+      let run_prog m := fold_left (fun c s => exec_stmt m s c) hoisted (mkCmd false false false false) in
+      group_set (run_prog no_sandbox) = true /\ group_set (run_prog (mkMode NsNever false true)) = false)
+  /\ (exists st, run linux 300 0 init
+        [CStart true (mkMode NsNever false true); EFork 0; ESetIgn 1 true; EClosePipe 1; EFork 1; Tick 300; CDeadline; EExit 0;
+         Tick 30; CExpire; Tick 1000; CExpire] = Some st
+       /\ ctl st = PcRet 1330 ErrDeadline /\ length (procs st) = 3%nat
+       /\ forallb (fun p => negb (alive p) || got_kill p) (procs st) = true)
+  /\ escapes [CStart true (mkMode NsNever false true); EFork 0; ESetIgn 1 true; EClosePipe 1; EFork 1; Tick 300; CDeadline; EExit 0;
+         Tick 30; CExpire; Tick 1000; CExpire] = false
+  (* an escaped process that keeps the pipes: cmd.Wait() cannot return, the report comes all the same *)
+  /\ (exists st, run linux 300 0 init [CStart true no_sandbox; EFork 0; EEscape 1; Tick 300; CDeadline; EExit 0] = Some st
+       /\ os_wait_done linux (procs st) = false
+       /\ step linux 300 0 st CRecv = None
+       /\ exists st', run linux 300 0 st [Tick 30; CExpire; Tick 1000; CExpire] = Some st' /\ ctl st' = PcRet 1330 ErrDeadline).
+Proof.
+  split; [vm_compute; reflexivity|]. split; [vm_compute; reflexivity|]. split; [vm_compute; split; reflexivity|].
+  split; [eexists; split; [vm_compute; reflexivity|repeat split]|]. split; [reflexivity|].
+  eexists. split; [vm_compute; reflexivity|]. split; [reflexivity|]. split; [vm_compute; reflexivity|].
+  eexists. split; [vm_compute; reflexivity|reflexivity].
 Qed.
 
 (* the refutation's witness is a run of the model: reported finished with nil error 5 ms after
